@@ -1,5 +1,9 @@
 pub mod basic;
 pub mod c02x;
+pub mod c07;
+pub mod c08;
+pub mod c11;
+pub mod c16;
 
 use crate::report::{Collector, Ctx};
 
@@ -15,9 +19,18 @@ pub fn run(ctx: &Ctx) -> Option<Collector> {
         "C04" => basic::c04(ctx),
         "C05" => basic::c05(ctx),
         "C06" => basic::c06(ctx),
+        "C07" => c07::run(ctx),
+        "C08" => c08::run(ctx),
         "C09" => basic::c09(ctx),
+        "C11" => c11::run(ctx),
+        "C16" => c16::run(ctx),
         "C10" => basic::c10(ctx),
         "C15" => basic::c15(ctx),
         _ => return None,
     })
+}
+
+/// replay of case kinds that belong to one property only
+pub fn replay_other(prop: &str, kind: &str, _case: &serde_json::Value) -> Result<Vec<(String, String)>, String> {
+    Err(format!("no single-case replay for kind '{}' of {}: re-run ./check {} (the sweep is deterministic and reports the same first case)", kind, prop, prop))
 }
